@@ -301,8 +301,11 @@ centre and the stored angle the prescribed angle.  In particular nothing of the 
 redefinition (angle bookkeeping, centres) may influence what a later `rotate_to` / `move_to` does.
 `OpsOk`: rotations are unit vectors, a polygon is not asked to turn by a non-zero angle inside
 `rotate_to`'s `1e-9` skip window, a redefinition is of the object's own class and defined, `remove_point`
-leaves a vertex, and no in-place edit of the original after `copy()` (F24); `OffB`: polygons are
-compared at points whose pre-image lies on no edge. -/
+leaves a vertex; `OffB`: polygons are compared at points whose pre-image lies on no edge.  The histories
+`forkEdit` — `c = roi.copy()`, then `add_point` / `replace_last_point` / `remove_point` on the original
+(observing the copy) or on the copy (observing the original) — are inside the theorem without any
+exclusion since fix F24 (`VertexROIBase.copy` gives the clone its own vertex lists): the observed
+object is the same region as before. -/
 theorem ops_equivariant_spec (roi : Roi) (ops : List Op) (q : Pt) (hdef : roi.defined = true)
     (hu : (Spec.orient roi).1 * (Spec.orient roi).1 + (Spec.orient roi).2 * (Spec.orient roi).2 = 1)
     (hok : OpsOk roi ops)
@@ -335,6 +338,10 @@ theorem ops_base_region (roi : Roi) (pre post : List Op) (new : Roi)
 -- the hypotheses are satisfiable by non-trivial sequences
 example : OpsOk (.poly { vs := [(0, 0), (4, 0), (0, 3)] }) [.move (5, 5), .rotate (3/5) (4/5), .copy] :=
   ⟨trivial, ⟨by norm_num, Or.inl (by decide +kernel)⟩, trivial, trivial⟩
+-- copy, then edit the original (observe the copy) / edit the copy (observe the original), then go on
+example : OpsOk (.poly { vs := [(0, 0), (4, 0), (0, 3)] })
+    [.forkEdit false .add (9, 9), .forkEdit true .replaceLast (5, 5), .forkEdit false .remove (0, 0), .move (5, 5)] :=
+  ⟨trivial, trivial, trivial, trivial, trivial⟩
 example : OpsOk (.rect ⟨0, 4, 0, 2, 1, 0⟩) [.rotate (3/5) (4/5), .move (1, 1), .roundtrip, .rotate 0 (-1)] :=
   ⟨⟨by norm_num, trivial⟩, trivial, trivial, ⟨by norm_num, trivial⟩, trivial⟩
 -- transform → reset → define → transform, polygon and rectangle
@@ -376,12 +383,29 @@ theorem stale_theta_witness :
     Impl.contains (Variant.applyOps roi ops) (21/2, 11) = true := by
   decide +kernel
 
-/-- **Witness for F24** (`copy()` is `copy.copy`: the vertex *lists* are shared): `c = roi.copy();
-roi.add_point(9, 9)` — the copy, which must still be the triangle, has become the quadrilateral. -/
+/-- **`copy_independent`** (F24 repaired): after `c = roi.copy()` a vertex edit of one of the two objects
+leaves the other one the region it was — in the model of the code that exists the observed object is
+unchanged, so it contains the same points, and the specification's region is unchanged as well. -/
+theorem copy_independent (roi : Roi) (onCopy : Bool) (e : VEdit) (p q : Pt) (ops : List Op) :
+    Impl.applyOp roi (.forkEdit onCopy e p) = roi ∧
+    Impl.contains (Impl.applyOps roi [.forkEdit onCopy e p]) q = Impl.contains roi q ∧
+    Spec.containsAfter roi (ops ++ [.forkEdit onCopy e p]) q = Spec.containsAfter roi ops q := by
+  refine ⟨rfl, rfl, ?_⟩
+  simp only [Spec.containsAfter, Spec.run, List.foldl_append, List.foldl_cons, List.foldl_nil, Spec.step]
+
+/-- **Witness for F24** on the *pinned* model (`Pinned.applyOp`: `copy()` is `copy.copy`, the vertex
+*lists* are shared): `c = roi.copy(); roi.add_point(9, 9)` — the copy, which must still be the triangle,
+has become the quadrilateral; `c = roi.copy(); c.replace_last_point(9, 9)` — the original has become
+the triangle `(0,0) (4,0) (9,9)`.  The specification and the model of the repaired code
+(`VertexROIBase.copy` copies the lists) agree with each other and not with it. -/
 theorem copy_shares_vertices_witness :
     let roi : Roi := .poly { vs := [(0, 0), (4, 0), (0, 3)] }
-    Spec.containsAfter roi [.forkAdd (9, 9)] (3, 4) = false ∧
-    Impl.contains (Impl.applyOps roi [.forkAdd (9, 9)]) (3, 4) = true := by
+    Spec.containsAfter roi [.forkEdit false .add (9, 9)] (3, 4) = false ∧
+    Impl.contains (Impl.applyOps roi [.forkEdit false .add (9, 9)]) (3, 4) = false ∧
+    Impl.contains (Pinned.applyOps roi [.forkEdit false .add (9, 9)]) (3, 4) = true ∧
+    Spec.containsAfter roi [.forkEdit true .replaceLast (9, 9)] (5, 4) = false ∧
+    Impl.contains (Impl.applyOps roi [.forkEdit true .replaceLast (9, 9)]) (5, 4) = false ∧
+    Impl.contains (Pinned.applyOps roi [.forkEdit true .replaceLast (9, 9)]) (5, 4) = true := by
   decide +kernel
 
 /-! ## copy, save / restore, array arrangement, chunking -/
